@@ -317,6 +317,17 @@ fn run_cli(op: &Value, file: &mut String, cfg: &Cfg, cli: Option<&str>, events: 
     let out_path = dir.join("out.src");
     let conf_path = dir.join("targets.conf");
     let mut args: Vec<String> = vec![];
+    // "argform": "sep" passes option values as separate arguments (`--opt value`) where the value cannot be taken
+    // for an option itself; the default is `--opt=value`
+    let sep = s("argform", "eq") == "sep";
+    let push_opt = |args: &mut Vec<String>, name: &str, val: &str| {
+        if sep && !val.starts_with('-') && !val.is_empty() {
+            args.push(name.to_string());
+            args.push(val.to_string());
+        } else {
+            args.push(format!("{}={}", name, val));
+        }
+    };
     if input == "file" {
         std::fs::write(&in_path, file.as_bytes()).unwrap();
         args.push("--filename".into());
@@ -334,19 +345,19 @@ fn run_cli(op: &Value, file: &mut String, cfg: &Cfg, cli: Option<&str>, events: 
         _ => {}
     }
     if explicit("ds") {
-        args.push(format!("--delimiter-start={}", cfg.ds));
+        push_opt(&mut args, "--delimiter-start", &cfg.ds);
     }
     if explicit("de") {
-        args.push(format!("--delimiter-end={}", cfg.de));
+        push_opt(&mut args, "--delimiter-end", &cfg.de);
     }
     if explicit("tl") {
-        args.push(format!("--time-limited-tag-name={}", cfg.tl));
+        push_opt(&mut args, "--time-limited-tag-name", &cfg.tl);
     }
     if explicit("rm") {
-        args.push(format!("--removal-marker-tag-name={}", cfg.rm));
+        push_opt(&mut args, "--removal-marker-tag-name", &cfg.rm);
     }
     if explicit("off") {
-        args.push(format!("--time-limited-time-offset={}", cfg.off));
+        push_opt(&mut args, "--time-limited-time-offset", &cfg.off);
     }
     // "current": "omit" leaves the option out: the process then reads the system clock itself
     // "current": "garbage" passes a string that is no time (the code falls back to the clock as well)
@@ -375,7 +386,7 @@ fn run_cli(op: &Value, file: &mut String, cfg: &Cfg, cli: Option<&str>, events: 
     }
     if via == "flags" || via == "both" {
         for t in &flag_targets {
-            args.push(format!("--removal-marker-target-name={}", t));
+            push_opt(&mut args, "--removal-marker-target-name", t);
         }
     }
     match mode.as_str() {
@@ -415,6 +426,23 @@ fn run_cli(op: &Value, file: &mut String, cfg: &Cfg, cli: Option<&str>, events: 
             if output == "same" && input == "file" && has_in {
                 *file = from_cps(&inc);
             }
+            // the JSON payload (wherever it was written) parsed into line ranges and statuses
+            let payload: Option<String> = match output.as_str() {
+                "stdout" => stdout_utf8.as_ref().ok().cloned(),
+                "file" => if has_out { Some(from_cps(&outc)) } else { None },
+                _ => if has_in { Some(from_cps(&inc)) } else { None },
+            };
+            let (pj_ok, pj_items) = if b("json") && mode != "clean" {
+                match payload {
+                    Some(p) => {
+                        let lr = list_return(&p, true);
+                        (lr.get("json_ok").and_then(|x| x.as_bool()).unwrap_or(false), lr.get("items").cloned().unwrap_or(json!([])))
+                    }
+                    None => (false, json!([])),
+                }
+            } else {
+                (false, json!([]))
+            };
             let shown: Vec<String> = args.iter().map(|a| a.replace(dir.to_string_lossy().as_ref(), "$D")).collect();
             events.push(json!({
                 "ev": "Cli", "args": shown, "input": input, "output": output, "mode": mode, "json": b("json"),
@@ -428,6 +456,7 @@ fn run_cli(op: &Value, file: &mut String, cfg: &Cfg, cli: Option<&str>, events: 
                 "stderr_head": String::from_utf8_lossy(&o.stderr).chars().take(200).collect::<String>(),
                 "has_outfile": has_out, "outfile": outc,
                 "has_infile": has_in, "infile_after": inc,
+                "payload_json_ok": pj_ok, "payload_items": pj_items,
             }));
         }
         Err(e) => events.push(json!({"ev": "ToolError", "what": format!("spawn failed: {}", e)})),
